@@ -404,9 +404,12 @@ def run(ctx):
         for node in ast.walk(f.node):
             # identity of integers is an accident of the interpreter's small-int cache: `idx is len(xs) - 1` holds up to 256 only
             if isinstance(node, ast.Compare) and any(isinstance(o_, (ast.Is, ast.IsNot)) for o_ in node.ops):
+                from ..nodetype import INT as _INT
+                ft_ = typer.results.get(f) or typer.analyze(f)
                 for x_ in [node.left] + list(node.comparators):
                     if (isinstance(x_, ast.BinOp) and isinstance(x_.op, (ast.Add, ast.Sub, ast.Mult, ast.FloorDiv, ast.Mod))) \
                             or (isinstance(x_, ast.Call) and norm(x_.func) == "len") \
+                            or (isinstance(x_, ast.Name) and ft_ is not None and ft_.type_of(x_) == _INT) \
                             or (isinstance(x_, ast.Constant) and isinstance(x_.value, int) and not isinstance(x_.value, bool)):
                         ctx.viol("N6", f, node, "`%s` compares an integer by identity: equal numbers are the same object only inside the "
                                  "interpreter's small-integer cache (-5..256), so the test fails for larger positions / counts" % norm(node)[:60],
